@@ -4,7 +4,7 @@ import json
 from lv import core, noise, parsers, syntaxgen, syntaximport
 
 ID = 'C15'
-BUDGET = {'quick': 2400, 'thorough': 60000}     # generated programs; 4 parses each
+BUDGET = {'quick': 6000, 'thorough': 60000}     # generated programs; 4 parses each
 WALL = {'quick': 1800, 'thorough': 7200}     # safety net only (=> inconclusive shards)
 RULE = ('programs of the syntactic grammar generator lv/syntaxgen.py, printed twice: base '
         'text and a noisy text with whitespace / newlines / tabs / # and /* */ comments '
@@ -167,6 +167,21 @@ def check_tree(tree, mode, which, allowed, strings, text, excluded=None, renamed
     return fails
 
 
+# Open known finding: `bar > 1!=p` / `bar > "a"!=p` (a compact `!=` right after a literal
+# or a closing bracket, as the right operand of another comparison) is rejected by both
+# parsers, `bar > 1 !=p` is accepted: a blank between two tokens decides.  While it is
+# open syntaxgen prints no compact `!=` (VERIF_SYNTAX_EXCLUDE_COMPACT_NEQ=0 re-derives it).
+KEY_COMPACT_NEQ = 'compact_neq_after_literal'
+
+
+def compact_neq_after_atom(case):
+    import re
+    text = case.get('base_neutral') or case['base']
+    noisy = case['noisy']
+    pat = re.compile(r'["\'0-9)\]]!=')
+    return bool(pat.search(text)) and len(pat.findall(noisy)) < len(pat.findall(text))
+
+
 def evaluate_pair(case):
     """-> (fails, info) for the texts case['base'] / case['noisy']."""
     fails = []
@@ -183,7 +198,10 @@ def evaluate_pair(case):
             # same text with every literal's content replaced by plain letters is, then
             # characters inside a literal were treated as syntax
             if sn == 'ok':
-                fails.append(('noise_accepted_base_rejected:%s:%s:%s' % (mode, sb, tb),
+                what = '%s:%s' % (sb, tb)
+                if compact_neq_after_atom(case):
+                    what = KEY_COMPACT_NEQ      # open known finding (see below)
+                fails.append(('noise_accepted_base_rejected:%s:%s' % (mode, what),
                               '%s parser rejects the base text (%s: %s) but accepts its '
                               'layout variant\nbase:\n%s\nnoisy:\n%s' % (
                                   mode, sb, tb, case['base'], case['noisy'])))
@@ -409,3 +427,9 @@ def minimise(case, bucket):
     except Exception:  # pylint: disable=broad-exception-caught
         pass
     return case
+
+
+def known_match(entry, bucket):
+    """An open finding's key names the root cause; the bucket prefixes it with the oracle
+    branch and the parser (PY / CPP)."""
+    return bucket == entry['key'] or bucket.endswith(':' + entry['key'])
